@@ -365,7 +365,7 @@ def run(ck):
     g = Gen(rng.fork())
     cases = corpus()
     ncorp = len(cases)
-    n = 1500 if ck.tier == "quick" else 30000
+    n = 1200 if ck.tier == "quick" else 30000
     for i in range(n):
         mode = "dag" if rng.chance(7, 10) else "free"
         long_ = rng.chance(1, 8)
